@@ -57,9 +57,13 @@ class Gen:
         if key:
             c = rng.random()
             if c < 0.7 or not self.keyable:
-                return prim(rng.choice(KEYABLE))
-            d = rng.choice(self.keyable)
-            return named(d, spelling=self.spelling(d, module))
+                t = prim(rng.choice(KEYABLE))
+            else:
+                d = rng.choice(self.keyable)
+                t = named(d, spelling=self.spelling(d, module))
+            if rng.random() < 0.15:
+                t["attrs"] = self.attrs(1.0)      # a key type may carry attributes like any other type reference
+            return t
         opt = allow_opt and rng.random() < 0.2
         c = rng.random()
         if depth < self.depth and c < 0.3:
